@@ -3,7 +3,7 @@
 (* with Gen_FimStore.cfg, generation of behaviours that are replayed into the real backends.                  *)
 EXTENDS FimStore, Json
 
-CONSTANTS GIDS, NIDS, CLS, RELS, MaxDepth, WithQueries, WithMerge
+CONSTANTS GIDS, NIDS, CLS, RELS, MaxDepth, WithQueries, WithMerge, Profile
 
 VARIABLES st, lastop, path, chg
 vars == <<st, lastop, path, chg>>
@@ -15,6 +15,29 @@ UPairs == {<<Enum[i], Enum[j]>> : i, j \in 1..Cardinality(NIDS)} \cap {<<Enum[i]
 NodePropsAlts == {<<>>, [Name |-> "s:v1"], [p |-> "s:v1", Type |-> "s:t1"]}
 LinkPropsAlts == {<<>>, [p |-> "s:v1"]}
 Vals == {"s:v1", "s:v2"}
+
+\* Profile "graphs": the multi-graph alphabet of C04 (whole-graph operations, imports incl. tampered documents)
+GraphMutators ==
+         {[op |-> "AddNode", g |-> g, n |-> n, cls |-> "K1", props |-> [p |-> "s:v1"]] : g \in GIDS, n \in NIDS}
+    \cup {[op |-> "DeleteNode", g |-> g, n |-> n] : g \in GIDS, n \in NIDS}
+    \cup {[op |-> "AddLink", g |-> g, a |-> pr[1], b |-> pr[2], rel |-> "r1", props |-> <<>>] : g \in GIDS, pr \in UPairs}
+    \cup {[op |-> "UpdateNodesProp", g |-> g, p |-> "p", v |-> "s:v2"] : g \in GIDS}
+    \cup {[op |-> "DeleteGraph", g |-> g] : g \in GIDS}
+    \cup {[op |-> "DeleteAll"]}
+    \cup {[op |-> "Export", g |-> g] : g \in GIDS}
+    \cup {[op |-> "Tamper", kind |-> "drop_nodeid", n |-> n, g2 |-> ""] : n \in NIDS}
+    \cup {[op |-> "Tamper", kind |-> "set_gid", n |-> n, g2 |-> g] : n \in NIDS, g \in GIDS}
+    \cup {[op |-> "Import", entry |-> en, h |-> h] : en \in {"string", "file"}, h \in GIDS}
+    \cup {[op |-> "Import", entry |-> en, h |-> ""] : en \in {"string_direct", "file_direct"}}
+    \cup {[op |-> "Clone", g |-> g, h |-> h] : g \in GIDS, h \in GIDS}
+    \cup (IF WithMerge THEN
+            {[op |-> "MergeNodes", g |-> gh[1], n |-> n, h |-> gh[2], pol |-> <<>>] :
+                 gh \in {x \in GIDS \X GIDS : x[1] # x[2]}, n \in NIDS}
+          ELSE {})
+GraphObservers ==
+         {[op |-> "ListIds", g |-> g] : g \in GIDS}
+    \cup {[op |-> "GraphExists", g |-> g] : g \in GIDS}
+    \cup {[op |-> "GetNodeProps", g |-> g, n |-> n] : g \in GIDS, n \in NIDS}
 
 Mutators ==
          {[op |-> "AddNode", g |-> g, n |-> n, cls |-> c, props |-> pp] : g \in GIDS, n \in NIDS, c \in CLS, pp \in NodePropsAlts}
@@ -59,8 +82,10 @@ Observers ==
     \cup {[op |-> "ShortestPath", g |-> g, a |-> a, z |-> z, rel |-> r] : g \in GIDS, a \in NIDS, z \in NIDS, r \in RELS \cup {""}}
 
 \* operations offered in state S (observers that need an existing other graph are guarded: outside the documented domain otherwise)
-Ops(S) == Mutators
-          \cup (IF WithQueries THEN Observers ELSE {})
+\* the direct import entries require node ids in the document (documented precondition)
+Legal(S, o) == ~(o.op = "Import" /\ o.entry \in {"string_direct", "file_direct"} /\ S.doc.noid # {})
+Ops(S) == {o \in (IF Profile = "graphs" THEN GraphMutators ELSE Mutators) : Legal(S, o)}
+          \cup (IF WithQueries THEN (IF Profile = "graphs" THEN GraphObservers ELSE Observers) ELSE {})
           \cup {[op |-> "FindMatching", g |-> g, h |-> h] : <<g, h>> \in {gh \in GIDS \X GIDS : KeysOf(S, gh[2]) # {}}}
 
 Init == st = EmptyStore /\ lastop = [op |-> "Init"] /\ path = <<>> /\ chg = FALSE
